@@ -33,6 +33,10 @@ class ParallelSourcePlugin(Plugin):
             for p in plugins.values():
                 if p.parallel and all([d in sub_plugins for d in p.depends_on]):
                     for d in p.provides:
+                        if d in components.loaders:
+                            # This output is stored and will be loaded:
+                            # it is not ours to produce.
+                            continue
                         sub_plugins[d] = p
                         if d in plugins:
                             del plugins[d]
